@@ -92,7 +92,7 @@ maph('MapHeader_WidthInTiles', ['C07', 'C16'])
 maph('MapHeader_TileCount', ['C07', 'C16'])
 maph('MapHeader_VersionTagValid', ['C06'])
 maph('Map_ctor', ['C06'])
-maph('Map_GetTileIndex', ['C16'], timeout=900, what='index == block-order formula and < width*height, widths 2^5..2^10, any 32-bit height')
+maph('Map_GetTileIndex', ['C16', 'C06'], timeout=900, what='index == block-order formula and < width*height, widths 2^5..2^10, any 32-bit height')
 maph('Map_GetTileMappingIndex', ['C16'], replace=['Map_GetTileIndex'])
 maph('Map_GetCellType', ['C16'], replace=['Map_GetTileIndex'])
 maph('Map_SetCellType', ['C16'], replace=['Map_GetTileIndex'], reach=['normal exit', 'exceptional exit'])
@@ -114,7 +114,7 @@ claim('C16', 'GetTileIndex proved equal to the 32-column block-order formula and
 TOLOWER_TRUST = 'tolower/toupper: C locale, key(c) = c+32 for A..Z, for every c in -128..255 (assumed contract, contracts/str.contracts)'
 G('str.IsEqual', ['C19', 'C01'], 'str', 'StringUtility_IsEqual', replace=['op2_tolower', 'op2_toupper'], solver='cvc5', reach=NOEXC, timeout=900, trusted=[TOLOWER_TRUST], stage2='OP2_BOUNDED=4', replay={'driver': 'str_replay.cpp', 'case': 'cmp'})
 G('str.IsEqualCaseInsensitive', ['C19', 'C01', 'C02', 'C03', 'C18'], 'str', 'StringUtility_IsEqualCaseInsensitive', replace=['op2_tolower', 'op2_toupper'], solver='cvc5', reach=NOEXC, timeout=600, trusted=[TOLOWER_TRUST], stage2='OP2_BOUNDED=4', replay={'driver': 'str_replay.cpp', 'case': 'cmp'})
-G('str.ConvertToUpperInPlace', ['C19'], 'str', 'StringUtility_ConvertToUpperInPlace', replace=['op2_toupper'], reach=NOEXC, timeout=600, trusted=[TOLOWER_TRUST])
+G('str.ConvertToUpperInPlace', ['C19', 'C17'], 'str', 'StringUtility_ConvertToUpperInPlace', replace=['op2_toupper'], reach=NOEXC, timeout=600, trusted=[TOLOWER_TRUST])
 
 CMP = ['StringUtility_IsEqualCaseInsensitive', 'StringUtility_IsEqual']
 G('str.lemma_irreflexive', ['C19'], 'str', None, harness='h_lemma_irreflexive', replace=CMP, solver='cvc5', reach=[], timeout=600, stage2='OP2_BOUNDED=4', flags2=['--unwind', '6'], what='L19.1 over the comparator contract')
@@ -278,6 +278,9 @@ G('volw.WriteVolume', ['C01', 'C20'], 'volw', 'VolFile_WriteVolume', reach=EXC2,
   trusted=['XFile::PathsAreEqual as an uninterpreted deterministic relation (ghost value on one arbitrary pair)', 'WriteHeader/WriteFiles by frame-only contracts (they write through the writer and advance the input readers; their layout is decided by the bounded groups)',
            'FileWriter constructor = the point where the destination is created/truncated (ghost g_dest_opened)'],
   what='output path equal to an input (any member count, arbitrary index) is refused before the destination file is created')
+G('volw.CreateArchive', ['C01', 'C20', 'C02'], 'volw', 'VolFile_CreateArchive', reach=EXC2, replace=['op2_sort_by_ComparePathFilenames', 'CreateVolumeInfo_ctor', 'ArchiveFile_GetNamesFromPaths', 'ArchiveFile_VerifySortedContainerHasNoDuplicateNames', 'VolFile_PrepareHeader_U', 'VolFile_WriteVolume_U'],
+  trusted=['std::sort (permutes), GetNamesFromPaths, vector copy-assignment and the default constructor as assumed abstract contracts; PrepareHeader / WriteVolume / the duplicate check by use-mode framing contracts whose preconditions carry the required order (their own behaviour: groups volw.*, arch.VerifySortedNoDuplicates)'],
+  what='packing pipeline order for any file list: names of the sorted list are checked for duplicates, then inputs are prepared, then the destination is created; every refusal precedes creation of the destination')
 G('volw.PrepareHeader.bounded', ['C20', 'C01', 'C02'], 'volw', None, harness='h_vol_prepare_bounded', defines=['OP2_VOLN=3'], loop_contracts=False, reach=EXC2,
   flags=['--unwind', '6', '--unwinding-assertions', '--object-bits', '12'], timeout=900, replace=['Rf_Length', 'CreateVolumeInfo_fileCount'], bounded='member count n <= 3 (sizes and name lengths fully symbolic, 64-bit)',
   trusted=VOL_TRUST, replay={'driver': 'vol_replay.cpp', 'case': 'PrepareHeader'},
@@ -294,6 +297,10 @@ clm('ClmFile_FindChunk', ['C05', 'C03'], reach=EXC2, replace=RD + ['Rd_ReadHdr']
 G('clm.ClmFile_FindChunk.content', ['C03', 'C05'], 'clm', 'ClmFile_FindChunk', reach=EXC2, replace=RD + ['Rd_ReadHdr'], trusted=[KR_TRUST, 'generated pointer checks are OFF in this group (they are decided by clm.ClmFile_FindChunk on the same extracted body); contract clauses read the source bytes guard-first'],
   timeout=900, no_standard_checks=True, replay={'driver': 'clm_replay.cpp', 'case': 'FindChunk'},
   what='a normal return has just read a header carrying the searched tag and returns its length field; a matching first chunk, and a matching second chunk after a non-matching first one (also when its header ends exactly at end of file) are found')
+clm('ClmFile_CreateArchive', ['C03', 'C20', 'C05'], reach=EXC2, flags=['--object-bits', '12'], replace=['op2_sort_by_ComparePathFilenames', 'vec_Fr_ctor0', 'vec_Fr_open_push_back', 'vec_WaveFormatEx_ctor_n', 'vec_ClmIndexEntry_ctor_n', 'ClmFile_ReadAllWaveHeaders_U',
+    'ClmFile_CompareWaveFormats_U', 'ArchiveFile_GetNamesFromPaths', 'ClmFile_StripFilenameExtensions_U', 'ArchiveFile_VerifySortedContainerHasNoDuplicateNames', 'ClmFile_PrepareWaveFormat_U', 'ClmFile_WriteArchive_U'],
+    trusted=['std::sort, vector construction / push_back(make_unique<FileReader>), GetNamesFromPaths, StripFilenameExtensions (XFile) as assumed abstract contracts; ReadAllWaveHeaders / CompareWaveFormats / duplicate check / WriteArchive by use-mode framing contracts whose preconditions carry the required order'],
+    what='CLM packing pipeline order for any file list; over-long stored names (arbitrary index) refused; every refusal precedes creation of the destination; duplicates are checked on the stored names')
 REL('clm', 'WaveHeader_Create', 'value', 'WaveHeader', nbytes=46, props=('C18', 'C03'))
 REL('clm', 'ClmHeader_MakeHeader', 'value', 'ClmHeader', nbytes=60, props=('C18', 'C03'))
 claim('C04', 'Bit reader proved against the reference bit sequence (MSB-first, 0 beyond the end) with its shift-register invariant for any buffer length; position-code arithmetic proved equal to the LZHUF d_code/d_len tables for all 256 values; GetRepeatOffset proved equal to the reference DecodePosition (lemma, any buffer/bit position) and < 4096; GetNextCode proved to terminate, stay inside the tree arrays and return a symbol < 314 (cvc5, quantified structural tree invariant); DecompressCode appends 1..60 bytes and never moves the read index; FillDecompressBuffer keeps the queue invariant (unread data never overwritten: the per-code precondition unread <= 4035 holds at every call) and terminates; CopyAvailableData / GetInternalBuffer deliver the oldest unread bytes in order and advance by exactly the count; adaptive-tree facts as in C15.',
@@ -370,6 +377,8 @@ G('mapio.ReadSavedGameUnits.content', ['C07'], 'mapio', 'Map_ReadSavedGameUnits'
   trusted=MAPIO_TRUST + ['generated pointer checks are OFF in this group (decided by mapio.ReadSavedGameUnits on the same extracted body)', 'typed 32-bit reads assemble the four K_R bytes little-endian (target byte order)'],
   what='consumes exactly the bytes the layout defines: both object tables sized by their own counts, free-unit table iff first != next free slot; wrong unit size refused; short input refused')
 mapio('CheckSizeOfUnit', ['C07'])
+mapio('WriteTilesetSources', ['C06', 'C18'], replace=['Writer_WriteSized_u32_str'], defines=['OP2_BOUNDED=4'], timeout=600, bounded='<= 4 tileset sources, names <= 64 bytes (the unbounded quantified prefix-sum proof did not close on cvc5 in 600 s)',
+      what='bounded stand-in: tileset source table length equals the description (tile count written iff the name is not empty); proved by loop contract for <= 4 sources')
 mapio('GetWidthInTilesLog2', ['C06', 'C20']); mapio('CreateHeader', ['C06', 'C20'], replace=['Map_GetWidthInTilesLog2']); mapio('WriteContainerSize', ['C20', 'C06'])
 
 G('volw.WriteHeaderFiles.bounded', ['C02', 'C01', 'C18'], 'volw', None, harness='h_vol_write_bounded', defines=['OP2_VOLN=2'], loop_contracts=False, reach=['two members'],
